@@ -12,6 +12,8 @@ squared distances ints in units of 1/4096.  See harness/cont_common.py for the p
   scenario exp S T cap lo hi [lo hi …]            (one lo hi pair per axis: any number of dimensions ≥ 1)
     new a | set a x… | get a | remove a | agents            (agent-level: `err Attr` on a removed agent object)
     iadd a dx…   (agent.position += d) | poke a j x   (p = agent.position; p[j] = x)
+    raw i x…     (space.agent_positions[i] = x: a user write through the public view)
+    compat a x…  (agent.pos = x: the solara-compatibility setter, which ignores the value)
     radius x… r | knn x… k | nir a r | nn a k
     dists x… [: a b …] | diffs x… [: a b …] | inb x… | correct x…
 -/
@@ -157,6 +159,18 @@ def stepExp (s : ESpace) (nd : Nat) (ws : List String) : ESpace × String :=
     match a.toNat?, j.toNat?, x.toInt? with
     | some a, some j, some _ => (s, match agentPoke s a j with | .ok _ => "ok" | .error e => fmtErr e)
     | _, _, _ => bad
+  | "raw" :: i :: xs =>
+    match i.toNat?, ints xs with
+    | some i, some p =>
+      if p.length ≠ nd then bad else
+      match rawWrite s i p with
+      | .ok s' => (s', "ok")
+      | .error e => (s, fmtErr e)
+    | _, _ => bad
+  | "compat" :: a :: xs =>
+    match a.toNat?, ints xs with
+    | some _, some p => if p.length ≠ nd then bad else (s, "ok")
+    | _, _ => bad
   | ["get", a] =>
     match a.toNat? with
     | some a => (s, match agentGet s a with | .ok p => "ok pos=" ++ fmtPos p | .error e => fmtErr e)
